@@ -83,6 +83,47 @@ Fixpoint lookup (t : Z) (tbl : script_table) : option script :=
 Definition family_of (tbl : script_table) : family :=
   fun t => match lookup t tbl with Some sc => Some (script_decoder sc) | None => None end.
 
+(* ------------------------------------------------------------------ decidable hypothesis checks *)
+(* Sufficient conditions, evaluated per case by the runner, under which a scripted family
+   meets the hypotheses of the framework theorems (proved in Proofs/PacketScriptProofs.v):
+   table_F6b => F6, table_no_seterrb => no_seterr, table_progressb => progress. *)
+Definition term_is_next (t : terminator) : bool := match t with Next _ => true | _ => false end.
+Definition variant_continues (v : variant) : bool :=
+  term_is_next (v_term v) || match v_term_dsad v with Some t => term_is_next t | None => false end.
+Definition sact_adds (n : nat) (a : sact) : bool := match a with SAdd k => (k <? n)%nat | _ => false end.
+Definition sact_seterr (a : sact) : bool := match a with SErrL _ => true | _ => false end.
+
+Definition variant_F6b (v : variant) : bool :=
+  negb (variant_continues v) || existsb (sact_adds (length (v_layers v))) (v_acts v).
+Definition table_F6b (tbl : script_table) : bool :=
+  forallb (fun e => forallb variant_F6b (snd e)) tbl.
+Definition table_no_seterrb (tbl : script_table) : bool :=
+  forallb (fun e => forallb (fun v => negb (existsb sact_seterr (v_acts v))) (snd e)) tbl.
+
+Fixpoint last_sadd (n : nat) (acts : list sact) (cur : option nat) : option nat :=
+  match acts with
+  | [] => cur
+  | SAdd k :: r => last_sadd n r (if (k <? n)%nat then Some k else cur)
+  | _ :: r => last_sadd n r cur
+  end.
+
+Definition lspec_shrinks (s : lspec) : bool :=
+  match ls_pmode s with
+  | PRest => (1 <=? ls_clen s)%nat
+  | PEmpty => true
+  | PConst [] => true
+  | _ => false
+  end.
+
+Definition variant_progressb (v : variant) : bool :=
+  negb (variant_continues v) ||
+  match last_sadd (length (v_layers v)) (v_acts v) None with
+  | Some k => match nth_error (v_layers v) k with Some s => lspec_shrinks s | None => false end
+  | None => false
+  end.
+Definition table_progressb (tbl : script_table) : bool :=
+  forallb (fun e => forallb variant_progressb (snd e)) tbl.
+
 (* A whole correspondence case: NewPacket, the accessor program, then a closing Layers()
    after which the packet state is observed. *)
 Record case_result := mkCaseResult {
